@@ -62,7 +62,16 @@ HostsNamed(ps) == {Path(FALSE, <<Step("child", NTName("a"), ps)>>), Path(TRUE, <
 PoolPart5 == UNION {HostsOf(<<p>>) \cup HostsNamed(<<p>>) : p \in PosAtomsVM}
              \cup UNION {HostsOf(<<p, q>>) \cup HostsNamed(<<p, q>>) : p \in {Bin("=", PosF, NumL(2)), LastF, Bin("<", PosF, LastF)},
                                           q \in {R1("child", NTAny), Call("not", <<R1("child", NTAny)>>)}}
-AllPools == PoolSets \o <<PoolPart5>>
+\* part 6: unions (C11): operands overlapping, in reverse order, of attributes / text, with predicates; nested; inside predicates
+UOperands == {R1("child", NTAny), R1("child", NTName("a")), R1("descendant", NTName("a")), R1("ancestor-or-self", NTAny),
+              R1("attribute", NTAny), R1("preceding-sibling", NTAny), R1("self", NTNode), Path(TRUE, <<DosN, Step("child", NTAny, <<>>)>>),
+              Path(FALSE, <<Step("child", NTAny, <<R1("child", NTAny)>>)>>), Path(FALSE, <<Step("child", NTAny, <<>>), Step("attribute", NTAny, <<>>)>>),
+              Path(FALSE, <<Step("child", NTAny, <<>>), Step("child", NTText, <<>>)>>)}
+PoolPart6 == {Union(a, b) : a \in UOperands, b \in UOperands}
+             \cup {Union(Union(a, b), R1("child", NTAny)) : a \in UOperands, b \in {R1("descendant", NTName("a")), R1("attribute", NTAny)}}
+             \cup {Path(FALSE, <<Step(hax, NTAny, <<Union(a, R1("attribute", NTAny))>>)>>) : hax \in {"child", "descendant"}, a \in UOperands}
+             \cup {Path(FALSE, <<Step("child", NTAny, <<Call("not", <<Union(a, R1("attribute", NTAny))>>)>>)>>) : a \in UOperands}
+AllPools == PoolSets \o <<PoolPart5, PoolPart6>>
 
 NewNodes(d) ==
     UNION { {Node("elem", n, "", "", p, "") : n \in ElemNames} \cup {Node("text", "", "", "", p, v) : v \in TextVals} : p \in Ids(d) }
@@ -102,6 +111,11 @@ VM2Refines ==
     (IsCase /\ Claimed(expr)) =>
       LET g == Env(doc)  rs == Runs IN
       \A i \in 1 .. Len(doc) : rs[i].done /\ SeqToSet(rs[i].nodes) = EvalSet(expr, g, i)
+
+\* C11 at design level: a union delivers each node once
+VM2Once ==
+    (IsCase /\ expr.t = "union") =>
+      LET rs == Runs IN \A i \in 1 .. Len(doc) : \A a, b \in 1 .. Len(rs[i].nodes) : a # b => rs[i].nodes[a] # rs[i].nodes[b]
 
 OpCode(o) == CASE o = "child" -> 1 [] o = "next" -> 2 [] o = "prev" -> 3 [] o = "parent" -> 4 [] o = "root" -> 5
                [] o = "first" -> 6 [] o = "nextattr" -> 7
